@@ -1,11 +1,564 @@
 package main
 
 import (
+	"context"
+	"encoding/json"
+	"fmt"
+	"go/types"
+	"math"
+	"os"
+	"os/exec"
+	"path/filepath"
+	"strconv"
+	"strings"
+	"time"
+
+	"golang.org/x/tools/go/ssa"
+
 	"govc/solve"
 	"govc/vc"
 )
 
+// Replay: turn the solver's model of a failed (sat) obligation into concrete
+// Go values for the parameters of the function under contract, call the real
+// function from an in-package test injected with -overlay, and see whether
+// the real code misbehaves the way the obligation says.  Confirmation is
+// claimed only for obligation kinds whose failure is observable as a panic;
+// for the others the inputs are written to the replay file unconfirmed.
+
+var panicKinds = map[string]bool{"idx": true, "nil": true, "slice": true, "panic": true, "make": true, "shift": true, "assert": true, "cast": true, "div": true}
+
+type sx struct {
+	atom string
+	list []*sx
+}
+
+func parseSx(s string) []*sx {
+	var stack [][]*sx
+	cur := []*sx{}
+	i := 0
+	for i < len(s) {
+		c := s[i]
+		switch {
+		case c == '(':
+			stack = append(stack, cur)
+			cur = []*sx{}
+			i++
+		case c == ')':
+			n := &sx{list: cur}
+			if len(stack) == 0 {
+				return cur
+			}
+			cur = stack[len(stack)-1]
+			stack = stack[:len(stack)-1]
+			cur = append(cur, n)
+			i++
+		case c == ' ' || c == '\n' || c == '\t' || c == '\r':
+			i++
+		case c == '|':
+			j := strings.IndexByte(s[i+1:], '|')
+			if j < 0 {
+				return cur
+			}
+			cur = append(cur, &sx{atom: s[i : i+j+2]})
+			i += j + 2
+		default:
+			j := i
+			for j < len(s) && !strings.ContainsRune("() \n\t\r", rune(s[j])) {
+				j++
+			}
+			cur = append(cur, &sx{atom: s[i:j]})
+			i = j
+		}
+	}
+	return cur
+}
+
+func (n *sx) String() string {
+	if n.list == nil {
+		return n.atom
+	}
+	var ps []string
+	for _, c := range n.list {
+		ps = append(ps, c.String())
+	}
+	return "(" + strings.Join(ps, " ") + ")"
+}
+
+func sxInt(n *sx) (int64, bool) {
+	if n.list == nil {
+		v, err := strconv.ParseInt(n.atom, 10, 64)
+		if err != nil {
+			// too large for int64: wrap through uint64
+			u, err2 := strconv.ParseUint(n.atom, 10, 64)
+			if err2 != nil {
+				return 0, false
+			}
+			return int64(u), true
+		}
+		return v, true
+	}
+	if len(n.list) == 2 && n.list[0].atom == "-" {
+		v, ok := sxInt(n.list[1])
+		return -v, ok
+	}
+	return 0, false
+}
+
+func bitsOf(a string) (uint64, int, bool) {
+	switch {
+	case strings.HasPrefix(a, "#b"):
+		v, err := strconv.ParseUint(a[2:], 2, 64)
+		return v, len(a) - 2, err == nil
+	case strings.HasPrefix(a, "#x"):
+		v, err := strconv.ParseUint(a[2:], 16, 64)
+		return v, 4 * (len(a) - 2), err == nil
+	}
+	return 0, 0, false
+}
+
+func sxFloat(n *sx) (string, bool) {
+	if n.list != nil && len(n.list) == 4 && n.list[0].atom == "fp" {
+		s, _, ok1 := bitsOf(n.list[1].atom)
+		e, _, ok2 := bitsOf(n.list[2].atom)
+		m, _, ok3 := bitsOf(n.list[3].atom)
+		if ok1 && ok2 && ok3 {
+			return fmt.Sprintf("math.Float64frombits(0x%x)", s<<63|e<<52|m), true
+		}
+	}
+	if n.list != nil && len(n.list) == 4 && n.list[0].atom == "_" {
+		switch n.list[1].atom {
+		case "+zero":
+			return "0.0", true
+		case "-zero":
+			return "math.Copysign(0, -1)", true
+		case "NaN":
+			return "math.NaN()", true
+		case "+oo":
+			return "math.Inf(1)", true
+		case "-oo":
+			return "math.Inf(-1)", true
+		}
+	}
+	// real-mode models: decimals and fractions
+	if n.list == nil {
+		if f, err := strconv.ParseFloat(n.atom, 64); err == nil {
+			return strconv.FormatFloat(f, 'g', -1, 64), true
+		}
+	}
+	if n.list != nil && len(n.list) == 3 && n.list[0].atom == "/" {
+		a, ok1 := sxFloat(n.list[1])
+		b, ok2 := sxFloat(n.list[2])
+		if ok1 && ok2 {
+			return "(" + a + ")/(" + b + ")", true
+		}
+	}
+	if n.list != nil && len(n.list) == 2 && n.list[0].atom == "-" {
+		a, ok := sxFloat(n.list[1])
+		return "-(" + a + ")", ok
+	}
+	return "", false
+}
+
+type replayer struct {
+	script string
+	dir    string
+	cache  map[string]*sx
+	calls  int
+	fail   string
+}
+
+// eval asks the solver for the model values of terms (one consistent run).
+func (r *replayer) eval(terms []string) bool {
+	var need []string
+	for _, t := range terms {
+		if _, ok := r.cache[t]; !ok {
+			need = append(need, t)
+		}
+	}
+	if len(need) == 0 {
+		return true
+	}
+	// all terms asked so far are asked again, so that one model answers them all
+	all := need
+	for t := range r.cache {
+		all = append(all, t)
+	}
+	r.calls++
+	file := filepath.Join(r.dir, fmt.Sprintf("replay_%d.smt2", r.calls))
+	body := "(set-option :produce-models true)\n(set-logic ALL)\n" + r.script + "(get-value (" + strings.Join(all, " ") + "))\n"
+	os.WriteFile(file, []byte(body), 0o644)
+	defer os.Remove(file)
+	ctx, cancel := context.WithTimeout(context.Background(), 60*time.Second)
+	defer cancel()
+	out, _ := exec.CommandContext(ctx, "z3-new", "-T:50", file).CombinedOutput()
+	text := string(out)
+	if !strings.HasPrefix(strings.TrimSpace(text), "sat") {
+		r.fail = "model query did not return sat: " + firstLine(text)
+		return false
+	}
+	i := strings.Index(text, "(")
+	if i < 0 {
+		r.fail = "no values in solver output"
+		return false
+	}
+	top := parseSx(text[i:])
+	if len(top) == 0 || top[0].list == nil {
+		r.fail = "cannot parse get-value output"
+		return false
+	}
+	pairs := top[0].list
+	if len(pairs) != len(all) {
+		r.fail = "get-value arity mismatch"
+		return false
+	}
+	fresh := map[string]*sx{}
+	for k, pr := range pairs {
+		if pr.list == nil || len(pr.list) != 2 {
+			r.fail = "bad get-value pair"
+			return false
+		}
+		fresh[all[k]] = pr.list[1]
+	}
+	// consistency with what was used before
+	for t, v := range r.cache {
+		if fresh[t].String() != v.String() {
+			r.fail = "solver produced a different model on re-query"
+			return false
+		}
+	}
+	r.cache = fresh
+	return true
+}
+
+func firstLine(s string) string {
+	if i := strings.IndexByte(s, '\n'); i >= 0 {
+		return s[:i]
+	}
+	return s
+}
+
+func (r *replayer) declared(sym string) bool {
+	return strings.Contains(r.script, "(declare-const "+sym+" ") || strings.Contains(r.script, "(declare-fun "+sym+" ")
+}
+
+const maxReplayElems = 1 << 14
+
+// goValue builds a Go expression of type t from the model value of term.
+func (r *replayer) goValue(term string, t types.Type, qual types.Qualifier, depth int) (string, bool) {
+	if depth > 6 {
+		r.fail = "value too deeply nested"
+		return "", false
+	}
+	if !r.eval([]string{term}) {
+		return "", false
+	}
+	v := r.cache[term]
+	ts := types.TypeString(t, qual)
+	switch u := t.Underlying().(type) {
+	case *types.Basic:
+		switch {
+		case u.Info()&types.IsBoolean != 0:
+			return ts + "(" + v.atom + ")", v.atom == "true" || v.atom == "false"
+		case u.Info()&types.IsInteger != 0:
+			n, ok := sxInt(v)
+			if !ok {
+				r.fail = "integer value " + v.String()
+				return "", false
+			}
+			if u.Info()&types.IsUnsigned != 0 {
+				return fmt.Sprintf("%s(%d)", ts, uint64(n)), true
+			}
+			return fmt.Sprintf("%s(%d)", ts, n), true
+		case u.Info()&types.IsFloat != 0:
+			f, ok := sxFloat(v)
+			if !ok {
+				r.fail = "float value " + v.String()
+				return "", false
+			}
+			return ts + "(" + f + ")", true
+		case u.Info()&types.IsString != 0:
+			bs, ok := r.sliceElems(v, types.Typ[types.Uint8], qual, depth)
+			if !ok {
+				return "", false
+			}
+			return ts + "([]byte{" + strings.Join(bs, ", ") + "})", true
+		}
+	case *types.Slice:
+		if v.list != nil && len(v.list) == 5 {
+			if reg, ok := sxInt(v.list[1]); ok && reg == 0 {
+				return ts + "(nil)", true
+			}
+		}
+		es, ok := r.sliceElems(v, u.Elem(), qual, depth)
+		if !ok {
+			return "", false
+		}
+		return ts + "{" + strings.Join(es, ", ") + "}", true
+	case *types.Struct:
+		if v.list == nil && u.NumFields() == 0 {
+			return ts + "{}", true
+		}
+		if v.list == nil || len(v.list) != u.NumFields()+1 {
+			r.fail = "struct value " + v.String()
+			return "", false
+		}
+		// positional constructor application: evaluate fields through selectors is
+		// not needed; re-evaluate each field as its own term for nested heap reads
+		var fs []string
+		for i := 0; i < u.NumFields(); i++ {
+			sel := fieldSelector(r.script, v.list[0].atom, i)
+			if sel == "" {
+				r.fail = "no selector for " + v.list[0].atom
+				return "", false
+			}
+			fv, ok := r.goValue("("+sel+" "+term+")", u.Field(i).Type(), qual, depth+1)
+			if !ok {
+				return "", false
+			}
+			if u.Field(i).Name() == "_" {
+				continue
+			}
+			fs = append(fs, u.Field(i).Name()+": "+fv)
+		}
+		return ts + "{" + strings.Join(fs, ", ") + "}", true
+	case *types.Array:
+		if u.Len() > 64 {
+			r.fail = "large array"
+			return "", false
+		}
+		var es []string
+		for i := int64(0); i < u.Len(); i++ {
+			ev, ok := r.goValue(fmt.Sprintf("(select %s %d)", term, i), u.Elem(), qual, depth+1)
+			if !ok {
+				return "", false
+			}
+			es = append(es, ev)
+		}
+		return ts + "{" + strings.Join(es, ", ") + "}", true
+	case *types.Pointer:
+		if v.list == nil || len(v.list) != 3 {
+			r.fail = "pointer value " + v.String()
+			return "", false
+		}
+		reg, _ := sxInt(v.list[1])
+		idx, _ := sxInt(v.list[2])
+		if reg == 0 {
+			return "(" + ts + ")(nil)", true
+		}
+		if _, isStruct := u.Elem().Underlying().(*types.Struct); !isStruct || idx != 0 {
+			r.fail = "pointer to non-struct or interior pointer"
+			return "", false
+		}
+		h := vc.EntryHeapName(u.Elem())
+		if !r.declared(h) {
+			return "new(" + types.TypeString(u.Elem(), qual) + ")", true
+		}
+		pv, ok := r.goValue(fmt.Sprintf("(select (select %s %d) 0)", h, reg), u.Elem(), qual, depth+1)
+		if !ok {
+			return "", false
+		}
+		return "&" + pv, true
+	}
+	r.fail = "unsupported parameter type " + ts
+	return "", false
+}
+
+func (r *replayer) sliceElems(v *sx, et types.Type, qual types.Qualifier, depth int) ([]string, bool) {
+	if v.list == nil || len(v.list) != 5 {
+		r.fail = "slice value " + v.String()
+		return nil, false
+	}
+	reg, ok1 := sxInt(v.list[1])
+	off, ok2 := sxInt(v.list[2])
+	n, ok3 := sxInt(v.list[3])
+	if !ok1 || !ok2 || !ok3 || n < 0 || n > maxReplayElems {
+		r.fail = fmt.Sprintf("slice header %s (length beyond the replay limit of %d elements)", v.String(), maxReplayElems)
+		return nil, false
+	}
+	h := vc.EntryHeapName(et)
+	var es []string
+	if !r.declared(h) {
+		z := zeroExpr(et, qual)
+		for i := int64(0); i < n; i++ {
+			es = append(es, z)
+		}
+		return es, true
+	}
+	var terms []string
+	for i := int64(0); i < n; i++ {
+		terms = append(terms, fmt.Sprintf("(select (select %s %d) %d)", h, reg, off+i))
+	}
+	if !r.eval(terms) {
+		return nil, false
+	}
+	for _, t := range terms {
+		ev, ok := r.goValue(t, et, qual, depth+1)
+		if !ok {
+			return nil, false
+		}
+		es = append(es, ev)
+	}
+	return es, true
+}
+
+func zeroExpr(t types.Type, qual types.Qualifier) string {
+	ts := types.TypeString(t, qual)
+	switch u := t.Underlying().(type) {
+	case *types.Basic:
+		switch {
+		case u.Info()&types.IsBoolean != 0:
+			return "false"
+		case u.Info()&types.IsString != 0:
+			return `""`
+		}
+		return ts + "(0)"
+	case *types.Struct, *types.Array:
+		return ts + "{}"
+	}
+	return "(" + ts + ")(nil)"
+}
+
+// fieldSelector finds the i-th selector of the datatype whose constructor is ctor.
+func fieldSelector(script, ctor string, i int) string {
+	k := strings.Index(script, "((("+ctor+" ")
+	if k < 0 {
+		return ""
+	}
+	rest := script[k+2:]
+	end := strings.Index(rest, "\n")
+	if end > 0 {
+		rest = rest[:end]
+	}
+	top := parseSx(rest)
+	if len(top) == 0 || top[0].list == nil {
+		return ""
+	}
+	fields := top[0].list[1:]
+	if i >= len(fields) || fields[i].list == nil {
+		return ""
+	}
+	return fields[i].list[0].atom
+}
+
 // tryReplay attempts to confirm a counterexample on the real code.
 func tryReplay(p *vc.Program, ob *vc.Obligation, ans solve.Answer, dir string) (bool, string) {
-	return false, "replay: not available for this obligation"
+	if ans.Status != solve.Sat {
+		return false, "replay: the solver gave no counterexample (" + string(ans.Status) + ")"
+	}
+	fn := p.FindFunc(ob.Func)
+	if fn == nil || fn.Parent() != nil {
+		return false, "replay: not available (closure or unknown function)"
+	}
+	if strings.Contains(ob.Name, "/lemma/") {
+		return false, "replay: lemma obligations have no executable subject"
+	}
+	pkg := fn.Pkg.Pkg
+	qual := func(o *types.Package) string {
+		if o == pkg {
+			return ""
+		}
+		return o.Name()
+	}
+	script := strings.TrimSuffix(strings.TrimSpace(ob.Script), "(check-sat)") + "(check-sat)\n"
+	r := &replayer{script: script, dir: dir, cache: map[string]*sx{}}
+	byName := map[string]string{}
+	for _, in := range ob.Inputs {
+		byName[in.Name] = in.Term
+	}
+	var args []string
+	var decls []string
+	imports := map[string]bool{"fmt": true, "testing": true, "math": true}
+	for i, prm := range fn.Params {
+		term, ok := byName[prm.Name()]
+		if !ok || term == "" {
+			return false, "replay: parameter " + prm.Name() + " has no SMT term"
+		}
+		if !r.declared(term) {
+			// not mentioned by the failing path: any value will do
+			decls = append(decls, fmt.Sprintf("\tvar a%d %s", i, types.TypeString(prm.Type(), qual)))
+			args = append(args, fmt.Sprintf("a%d", i))
+			continue
+		}
+		ge, ok := r.goValue(term, prm.Type(), qual, 0)
+		if !ok {
+			return false, "replay: cannot build a Go value for parameter " + prm.Name() + ": " + r.fail
+		}
+		decls = append(decls, fmt.Sprintf("\ta%d := %s", i, ge))
+		args = append(args, fmt.Sprintf("a%d", i))
+	}
+	for _, d := range decls {
+		for _, o := range pkg.Imports() {
+			if strings.Contains(d, o.Name()+".") {
+				imports[o.Path()] = true
+			}
+		}
+	}
+	call := fn.Name() + "(" + strings.Join(args, ", ") + ")"
+	if fn.Signature.Recv() != nil {
+		call = "a0." + fn.Name() + "(" + strings.Join(args[1:], ", ") + ")"
+	}
+	if fn.Signature.Variadic() {
+		call = strings.TrimSuffix(call, ")") + "...)"
+	}
+	var src strings.Builder
+	fmt.Fprintf(&src, "package %s\n\nimport (\n", pkg.Name())
+	for im := range imports {
+		fmt.Fprintf(&src, "\t%q\n", im)
+	}
+	fmt.Fprintf(&src, ")\n\nvar _ = math.NaN\n\n// generated by govc: replay of %s\nfunc TestVerifReplay(t *testing.T) {\n", ob.Name)
+	fmt.Fprintf(&src, "\tdefer func() {\n\t\tif r := recover(); r != nil {\n\t\t\tfmt.Printf(\"REPLAY-PANIC: %%v\\n\", r)\n\t\t}\n\t}()\n")
+	for _, d := range decls {
+		src.WriteString(d + "\n")
+	}
+	nres := fn.Signature.Results().Len()
+	if nres == 0 {
+		fmt.Fprintf(&src, "\t%s\n\tfmt.Println(\"REPLAY-RETURNED\")\n}\n", call)
+	} else {
+		var rs []string
+		for i := 0; i < nres; i++ {
+			rs = append(rs, fmt.Sprintf("r%d", i))
+		}
+		fmt.Fprintf(&src, "\t%s := %s\n\tfmt.Printf(\"REPLAY-RETURNED: %%v\\n\", []interface{}{%s})\n}\n", strings.Join(rs, ", "), call, strings.Join(rs, ", "))
+	}
+	// inject the test with -overlay and run it against /repo's working tree
+	pkgDir := filepath.Dir(p.Prog.Fset.Position(fn.Pos()).Filename)
+	if pkgDir == "." || pkgDir == "" {
+		return false, "replay: cannot locate the package directory"
+	}
+	tf := filepath.Join(dir, "zz_verif_replay_test.go")
+	os.WriteFile(tf, []byte(src.String()), 0o644)
+	ov, _ := json.Marshal(map[string]map[string]string{"Replace": {filepath.Join(pkgDir, "zz_verif_replay_test.go"): tf}})
+	ovf := filepath.Join(dir, "replay_overlay.json")
+	os.WriteFile(ovf, ov, 0o644)
+	ctx, cancel := context.WithTimeout(context.Background(), 180*time.Second)
+	defer cancel()
+	cmd := exec.CommandContext(ctx, "go", "test", "-tags", "verif", "-overlay", ovf, "-vet=off", "-count=1", "-v", "-timeout", "60s", "-run", "^TestVerifReplay$", ".")
+	cmd.Dir = pkgDir
+	cmd.Env = append(os.Environ(), "GOFLAGS=-mod=mod", "GOPROXY=off", "GOSUMDB=off", "GOTOOLCHAIN=local")
+	out, _ := cmd.CombinedOutput()
+	text := string(out)
+	var sb strings.Builder
+	fmt.Fprintf(&sb, "---- replay: generated test (run in %s with go test -tags verif -overlay) ----\n%s\n---- replay: output ----\n%s\n", pkgDir, src.String(), text)
+	confirmed := false
+	switch {
+	case strings.Contains(text, "REPLAY-PANIC") || strings.Contains(text, "panic:") || strings.Contains(text, "fatal error"):
+		if panicKinds[ob.Kind] {
+			confirmed = true
+			sb.WriteString("replay verdict: the real code panics on the solver's input\n")
+		} else {
+			sb.WriteString("replay verdict: the real code panics on the solver's input (obligation kind " + ob.Kind + " is not a panic obligation)\n")
+		}
+	case strings.Contains(text, "REPLAY-RETURNED"):
+		if panicKinds[ob.Kind] {
+			sb.WriteString("replay verdict: the real code returned normally on the solver's input: the counterexample is an artefact of the contracts (callee contracts weaker than the code) or of the model\n")
+		} else {
+			sb.WriteString("replay verdict: the real code ran on the solver's input and returned the value above; the obligation is a contract clause, which this harness does not evaluate in Go: compare by hand\n")
+		}
+	default:
+		sb.WriteString("replay verdict: the test did not run (build error or timeout)\n")
+	}
+	_ = math.Pi
+	_ = ssa.NaiveForm
+	return confirmed, sb.String()
 }
